@@ -231,6 +231,24 @@ fn zero_parts_record(t: i32, k: u32, variant: u8) -> Vec<u8> {
     f
 }
 
+/// Like `zero_parts_record`, but with ONE part whose offset is `j` points before the declared
+/// count: the XY of those j points, and the ranges, are really present.
+fn late_first_part_record(t: i32, k: u32, j: i64) -> Vec<u8> {
+    let mut f = zero_parts_record(t, k, 1);
+    let npts: i64 = 1i64 << k;
+    let parts_at = 100 + 8 + 4 + 32 + 8;
+    put(&mut f, parts_at, (npts - j) as u32 as i32, false);
+    let xy_at = parts_at + 4 + if t == 31 { 4 } else { 0 };
+    // j real points, then 64 bytes for the ranges (and a few Z values)
+    f.truncate(xy_at);
+    for i in 0..j {
+        f.extend_from_slice(&(i as f64).to_le_bytes());
+        f.extend_from_slice(&(2.0f64).to_le_bytes());
+    }
+    f.extend_from_slice(&[0u8; 64]);
+    f
+}
+
 /// An index file declaring 2^k entries with nothing behind them.
 fn unbacked_index(k: u32) -> Vec<u8> {
     let mut f = vec![0u8; 100];
@@ -460,17 +478,17 @@ pub fn enumerate(bases: &[Base], ctx: &Ctx, want: &dyn Fn(u64) -> bool, f: &mut 
     //      due, so the reader gets as far as the Z / M ranges, which are present, before data runs out
     for &t in &[3, 5, 13, 15, 23, 25, 31] {
         for k in [10u32, 16, 20, 24, 26, 28, 30] {
-            for variant in 0..3u8 {
+            for variant in 0..6u8 {
                 for followed in [false, true] {
                     case!({
-                        let mut f = zero_parts_record(t, k, variant);
+                        let mut f = if variant < 3 { zero_parts_record(t, k, variant) } else { late_first_part_record(t, k, (variant - 2) as i64) };
                         if followed {
                             // a small valid record after the hostile one
                             f.extend_from_slice(&bases[0].shp[100..]);
                         }
                         let w = (f.len() / 2) as i32;
                         put(&mut f, 24, w, true);
-                        Input { shp: f, shx: None, desc: format!("t{} declares 2^{} points in {} parts, ranges present, no coordinates", t, k, ["zero", "one (offset = point count)", "two (offsets = point count)"][variant as usize]), class: "e:consistent-but-unbacked" }
+                        Input { shp: f, shx: None, desc: format!("t{} declares 2^{} points in {}, ranges present", t, k, ["zero parts", "one part (offset = point count)", "two parts (offsets = point count)", "one part starting 1 point before the count", "one part starting 2 points before the count", "one part starting 3 points before the count"][variant as usize]), class: "e:consistent-but-unbacked" }
                     });
                 }
             }
@@ -629,6 +647,31 @@ impl<'a> Exerciser<'a> {
         let t = order[(self.which_typed + 1) % order.len()];
         if let Some(mut rd) = self.open(opener) {
             for_type!(t, S => self.iterate::<S>(&mut rd, "iter_shapes_as"));
+        }
+        // ... and always the concrete type the file's own header (and first record) declare:
+        // a typed read that matches is the route that gets furthest into a record
+        let mut own: Vec<i32> = vec![];
+        for off in [32usize, 108] {
+            if let Some(c) = rawshp::le32(&self.inp.shp, off) {
+                if gen::TYPES.contains(&c) && !own.contains(&c) {
+                    own.push(c);
+                }
+            }
+        }
+        for t in own {
+            if let Some(rd) = self.open(opener) {
+                for_type!(t, S => { self.call("read_as(own type)", || rd.read_as::<S>().map(|v| v.len()).ok()); });
+            }
+            if let Some(mut rd) = self.open(opener) {
+                for_type!(t, S => self.iterate::<S>(&mut rd, "iter_shapes_as(own type)"));
+            }
+            if self.inp.shx.is_some() {
+                if let Some(mut rd) = self.open(opener) {
+                    for i in 0..3usize {
+                        for_type!(t, S => { self.call("read_nth_shape_as(own type)", || rd.read_nth_shape_as::<S>(i).map(|r| r.is_ok())); });
+                    }
+                }
+            }
         }
         // the complete Reader: the hostile .shp/.shx next to a small valid .dbf
         if self.which_typed % 4 == 0 {
